@@ -100,6 +100,9 @@ LazyStarAorBC == [k |-> "ncg", r |-> [k |-> "rep", r |-> [k |-> "ncg", r |-> [k 
 AltStarOrD == [k |-> "ncg", r |-> [k |-> "alt", xs |-> <<StarABorC.r, Chr(100)>>]]                   \* (?:(?:ab|c)*|d)
 AltDOrLazy == [k |-> "ncg", r |-> [k |-> "alt", xs |-> <<Chr(100), LazyStarAorBC.r>>]]               \* (?:d|(?:a|bc)*?)
 LvAltNull == {Chr(120), Chr(97), StarABorC, AltStarOrD, AltDOrLazy}     \* alternatives that match nothing or a variable-length run
+CatP(neg, name) == Bare([t |-> "p", neg |-> neg, name |-> name])
+LvCatCase == {CatP(FALSE, "Ll"), CatP(FALSE, "Lu"), CatP(TRUE, "Lu"), Chr(65), Chr(97), Chr(49)}   \* one-case category classes next to letters (flag i)
+QCatCase == {QStar, QPlus, QOpt, QStarL, Q(1, 3, FALSE, "n")}
 LvNest == {Chr(97), Chr(98), GrpA, GrpB}                             \* groups under loops under loops
 LvCaseOpt == {Chr(233), Chr(201), Chr(955), Chr(923), Chr(53)}        \* non-ASCII letters next to quantified letters (flag i)
 LvPunct == {Chr(91), Chr(123), Chr(94), Chr(126), Chr(64), Chr(96), Chr(95), Chr(97),
@@ -107,7 +110,9 @@ LvPunct == {Chr(91), Chr(123), Chr(94), Chr(126), Chr(64), Chr(96), Chr(95), Chr
 FlagsS == {NoFlags, Fl(FALSE, FALSE, TRUE)}
 GrpAStar == [k |-> "grp", n |-> 0, r |-> [k |-> "rep", r |-> Chr(97), min |-> 0, max |-> -1, lazy |-> FALSE, q |-> "s"]]   \* (a*)
 NcgBolAOpt == [k |-> "ncg", r |-> [k |-> "seq", xs |-> <<BolL, [k |-> "rep", r |-> Chr(97), min |-> 0, max |-> 1, lazy |-> FALSE, q |-> "s"]>>]]
-LvDynEmpty == {BolL, EolL, Chr(97), Bref(1), GrpAStar, NcgBolAOpt}    \* bodies that match empty only dynamically
+AltEolB == [k |-> "ncg", r |-> [k |-> "alt", xs |-> <<EolL, Chr(98)>>]]                      \* (?:$|b)
+AltABol == [k |-> "ncg", r |-> [k |-> "alt", xs |-> <<Chr(97), BolL>>]]                      \* (?:a|^)
+LvDynEmpty == {BolL, EolL, Chr(97), Bref(1), GrpAStar, NcgBolAOpt, AltEolB, AltABol}    \* bodies that match empty only dynamically
 QCount2 == {Q(2, 2, FALSE, "n"), Q(2, -1, FALSE, "n"), Q(1, 2, FALSE, "n"), Q(3, 3, FALSE, "n"), QPlus, QStar, Q(2, 2, TRUE, "n")}
 LvAstral == {Chr(66560), Chr(769), Chr(97), Dot, Cls(FALSE, <<IC(66560), IC(97)>>)}
 LvLoop == {Chr(97), Chr(98), BolL, EolL, Bref(1)}
